@@ -53,12 +53,14 @@ type Exec struct {
 	// Obs is the normalised per-client observation log (relational form of C04)
 	Obs      map[int][]string
 	SleptFor map[int]int // step index -> whole seconds actually slept
+	Aborted  bool        // the case was ended without verdict (documented tolerance band)
 	opStart       time.Time
 	slept         bool // virtual time advanced inside the current step (slow callback)
 	lastToken     []byte
 	lastTokenAt   time.Time
 	lastTokenPort int
 	lastTokenStream bool
+	nonceFresh, nonceStale bool // state of the client's nonce at the last authenticated request
 }
 
 func (x *Exec) fail(props []string, kind, f string, a ...any) {
